@@ -477,7 +477,13 @@ func singleSourceOfTruth(r *core.Report, rule string) {
 			if f.Obj != nil && f.Obj.Type().(*types.Signature).Recv() == nil {
 				continue // constructors
 			}
-			if writes(f, fld) && mentionsField(f, primary) {
+			readsPrimary := false
+			for _, sf := range pkgScope(p, f, 2) {
+				if sf.Body != nil && mentionsField(sf, primary) {
+					readsPrimary = true
+				}
+			}
+			if writes(f, fld) && readsPrimary {
 				copies = append(copies, fld)
 				break
 			}
